@@ -145,12 +145,51 @@ def run(ctx):
         eb = ExprBuilder(bd)
         recv = eb.at(bb).op(t["args"][0])
         harg = eb.op(t["args"][1])
-        if bd.kind == "Closure" and bd.parent == "engine::Engine::generator" and show(recv).endswith(".stream") and "additional_half_tone" in show(harg) and "condition" in show(harg):
+        direct = False
+        if bd.path == "engine::Engine::generator" and show(harg).endswith("condition.additional_half_tone"):
+            # direct form: `let mut s = models.model_stream(1); s.stream.apply_additional_half_tone(h);
+            # MlpgAdjust::new(.., .., s).create(..)` - the shifted value is the one handed to the lf0 MLPG,
+            # and the shift dominates that call
+            rl = None
+            op0 = t["args"][0]
+            # receiver = &mut L.stream  -> the local L
+            if op0.get("k") in ("move", "copy") and not op0["place"]["proj"]:
+                for dbb, didx, ditem in bd.defs().get(op0["place"]["local"], []):
+                    if didx != "term" and ditem["rv"]["k"] == "ref" and [e_.get("name") for e_ in ditem["rv"]["place"]["proj"] if e_["k"] == "field"] == ["stream"]:
+                        rl = ditem["rv"]["place"]["local"]
+            if rl is not None:
+                src = show(eb.local(rl))
+                def base_local(op):
+                    n_ = 0
+                    while op.get("k") in ("move", "copy") and not op["place"]["proj"] and n_ < 6:
+                        l_ = op["place"]["local"]
+                        if l_ == rl:
+                            return l_
+                        ds_ = [d_ for d_ in bd.defs().get(l_, []) if not bd.is_cleanup(d_[0])]
+                        if len(ds_) == 1 and ds_[0][1] != "term" and ds_[0][2]["rv"]["k"] == "use":
+                            op = ds_[0][2]["rv"]["op"]
+                            n_ += 1
+                            continue
+                        return l_
+                    return None
+                news = [(nbb, nt) for nbb, nt in cm.local_calls(bd, p, exact="mlpg_adjust::MlpgAdjust::<'a>::new") if base_local(nt["args"][2]) == rl]
+                if src.startswith("model::Models::<'a>::model_stream(") and src.endswith(", 1)") and len(news) == 1 and bb in bd.dominators().get(news[0][0], ()) and bb != news[0][0]:
+                    # and that MlpgAdjust's create() result is the lf0 argument
+                    nb = p.body("speech::SpeechGenerator::new")
+                    for gbb, gt in cm.local_calls(bd, p, exact="speech::SpeechGenerator::new"):
+                        for k_, a_ in enumerate(gt["args"]):
+                            if nb is not None and nb.local_name(k_ + 1) == "lf0":
+                                s_ = show(eb.at(gbb).op(a_))
+                                if "create(" in s_ and "msd_threshold[1]" in s_ and "gv_weight[1]" in s_:
+                                    direct = True
+        if direct:
+            ctx.ok("C15-R4", "the single call shifts the value of model_stream(1) in place, before it is handed to the MlpgAdjust whose create() result is the lf0 trajectory", cm.loc_of(t["span"]))
+        elif bd.kind == "Closure" and bd.parent == "engine::Engine::generator" and show(recv).endswith(".stream") and "additional_half_tone" in show(harg) and "condition" in show(harg):
             ctx.ok("C15-R4", "the single call is in Engine::generator's closure: m.stream.apply_additional_half_tone(self.condition.additional_half_tone)", cm.loc_of(t["span"]))
         else:
             ctx.fail("C15-R4", bd.path, "call site", "unexpected call site: %s(%s, %s)" % (AHT.split("::")[-1], show(recv), show(harg)), cm.loc_of(t["span"]))
         g = p.body("engine::Engine::generator")
-        if g is not None:
+        if g is not None and not direct:
             geb = ExprBuilder(g)
             # mutated(model_stream(1), closure) -> MlpgAdjust::new(_, _, that) -> create -> lf0 argument
             ok4 = False
@@ -167,7 +206,7 @@ def run(ctx):
             if ok4:
                 ctx.ok("C15-R4", "lf0 = MlpgAdjust::new(.., .., mutated(model_stream(1), closure)).create(durations)", g.loc())
         mu = p.body("engine::Engine::generator::mutated")
-        if mu is not None:
+        if mu is not None and not direct:
             r = show(ExprBuilder(mu).local(0))
             calls = [cm.callee_name(t2["callee"]) if t2["callee"]["k"] == "fndef" else "<indirect>" for b2, t2 in mu.calls()]
             if r == "value" and len(calls) == 1 and "call_once" in calls[0]:
